@@ -301,6 +301,16 @@ impl<'r, 'gc> Cb<'r, 'gc> {
             };
             m.insert(o.addr, if o.live { c } else { c.to_ascii_uppercase() });
         }
+        // scale gauges (coverage only)
+        self.ex.stats.max("max_allocations_seen", snap.all.len() as u64);
+        self.ex.stats.max("max_gray_queue_seen", snap.gray.len() as u64);
+        self.ex.stats.max("max_gray_again_seen", snap.gray_again.len() as u64);
+        if snap.gray.len() > 128 {
+            self.ex.stats.inc("callbacks_with_gray_queue_over_128");
+        }
+        if snap.all.len() > 256 {
+            self.ex.stats.inc("callbacks_with_over_256_allocations");
+        }
         self.colors = Some(m);
     }
     #[cfg(not(gc_arena_verif))]
@@ -434,7 +444,7 @@ impl<'r, 'gc> Cb<'r, 'gc> {
         }
     }
 
-    fn do_alloc(&mut self, id: Id, kind: Kind, n: u8, init: &[Option<Id>]) {
+    fn do_alloc(&mut self, id: Id, kind: Kind, n: u32, init: &[Option<Id>]) {
         let a = self.a;
         if self.ex.w.objs.contains_key(&id) {
             self.ex.stats.inc("op_skipped");
@@ -479,6 +489,7 @@ impl<'r, 'gc> Cb<'r, 'gc> {
             freed: false,
             born_at: self.ex.op_index,
             poisoned: false,
+            drop_panicked: false,
         };
         if let (Some(old), true) = (self.ex.w.by_addr.insert(addr, id), track::enabled()) {
             self.ex.viol("C01", "M-live", format!("fresh object {} allocated at the address of still-allocated object {}", id, old));
@@ -655,6 +666,8 @@ impl<'r, 'gc> Cb<'r, 'gc> {
                 self.ex.w.dirty(a);
                 self.spoil();
                 self.ex.stats.inc(&format!("stash_{:?}", self.phase));
+                let live_in_set = self.ex.w.handles.values().filter(|h| h.live && h.set == *set).count() as u64;
+                self.ex.stats.max("max_live_handles_in_one_set", live_in_set);
             }
             MOp::Fetch { set, h } => self.do_fetch(*set, *h),
             MOp::CloneH { h, new } => clone_handle(self.ex.w, self.ex.handles, self.ex.stats, *h, *new),
